@@ -83,6 +83,29 @@ async def scenario(loop, plan, r):
 
     tr.sink = sink
     state["autoack"] = True
+    prior = plan.get("prior")
+    if prior:
+        # an earlier reset on the same connection (answered in time, or never): whatever it armed or registered must not
+        # reach into the request under test
+        tp = loop.time()
+        ptask = asyncio.ensure_future(gw.reset())
+        if prior.get("answer") is not None:
+            loop.call_at(tp + prior["answer"], feed, refash.enc_rstack(SOFTWARE))
+        await asyncio.wait([ptask], timeout=20)
+        p_ok = ptask.done() and not ptask.cancelled() and ptask.exception() is None
+        p_to = ptask.done() and not ptask.cancelled() and isinstance(ptask.exception(), asyncio.TimeoutError)
+        if prior.get("answer") is not None and not p_ok:
+            r.bad("C11:reset-outcome:earlier-reset-not-completed", f"{ptask}; plan {plan}")
+            return
+        if prior.get("answer") is None and not p_to:
+            r.bad("C11:reset-outcome:earlier-reset-did-not-time-out", f"{ptask}; plan {plan}")
+            return
+        if not ptask.done():
+            ptask.cancel()
+        if prior.get("answer") is None:
+            # numbering is whatever it was; a late answer to that abandoned reset is not part of this plan
+            pass
+        r.cls("earlier-reset:" + ("answered" if prior.get("answer") is not None else "timed-out"))
     for k in range(plan["i"]):
         await asyncio.wait_for(gw.send_data(bytes([0x10 + k, 1, 2, 3])), 50)
     for k in range(plan["j"]):
@@ -118,11 +141,15 @@ async def scenario(loop, plan, r):
     for e in pre:
         _fire(loop, gw, proto, feed, e)
         await asyncio.sleep(0.003)
+    if prior and loop.time() < tp + prior["gap"]:
+        await asyncio.sleep(tp + prior["gap"] - loop.time())
     nfail0 = len(app.failed)
     w0 = len(tr.writes)
     t0 = loop.time()
     op = plan["op"]
     task = asyncio.ensure_future(gw.reset() if op == "reset" else gw.wait_for_startup_reset())
+    tend = {}
+    task.add_done_callback(lambda f: tend.setdefault("t", loop.time()))
     for e in plan["events"]:
         if e[0] >= 0:
             loop.call_at(t0 + e[0], _fire, loop, gw, proto, feed, e)
@@ -175,9 +202,11 @@ async def scenario(loop, plan, r):
     if got[0] != exp[0]:
         r.bad(f"C11:{op}-outcome:{got[0]}-instead-of-{exp[0]}", f"plan {plan}")
         return
-    # completion time
-    if exp[1] is not None and task.done():
-        pass
+    # completion time: on the deciding event, or at the reset timeout
+    if exp[1] is not None and task.done() and "t" in tend and not plan.get("second"):
+        if abs(tend["t"] - (t0 + exp[1])) > 0.01:
+            r.bad(f"C11:{op}-ended-at-wrong-time:{exp[0]}", f"ended {tend['t'] - t0:.4f} s after the request, deciding event at {exp[1]}; plan {plan}")
+            return
     # failure triage: every RSTACK with another code and every ERROR -> enter_failed_state(code), exactly once each
     want_failed = [e[2] for e in evs if (e[1] == "rstack" and e[2] != SOFTWARE) or e[1] == "error"]
     # events after a connection loss never arrive (transport gone)
@@ -418,6 +447,10 @@ def plans(draw):
         plan["inflight"] = True
     elif draw(st.integers(0, 5)) == 0:
         plan["prefail"] = True
+    if draw(st.integers(0, 3)) == 0:
+        ans = draw(st.sampled_from([0.001, 0.1, 2.0, 4.9, None]))
+        base = 5.0 if ans is None else ans
+        plan["prior"] = {"answer": ans, "gap": round(base + draw(st.sampled_from([0.01, 0.4, 1.0, 2.9, 3.9, 4.5, 4.89, 4.99, 5.5, 9.0])), 4)}
     if draw(st.integers(0, 5)) == 0:
         plan["xnoise"] = draw(st.sampled_from([[0x13], [0x13, 0x11], [0x11], [0x13, 0x13]]))
     return plan
@@ -465,6 +498,14 @@ def enum_plans(quick):
         for extra in ({"prefail": True}, {"xnoise": [0x13]}, {"xnoise": [0x13, 0x11]}, {"prefail": True, "xnoise": [0x13]}):
             for ev in ([[0.01, "rstack", SOFTWARE]], [[0.5, "rstack", 0x02], [1.0, "rstack", SOFTWARE]], [[0.5, "error", 0x51]]):
                 out.append(dict({"i": 3, "j": 2, "op": op, "events": ev}, **extra))
+    for op in ("reset", "startup"):
+        for ans in (0.1, 2.0, None):
+            for gap in (0.5, 2.5, 4.5, 4.9, 4.999, 5.5, 7.0, 9.9, 10.5):
+                if gap <= (5.0 if ans is None else ans):
+                    continue
+                for ev in ([[1.0, "rstack", SOFTWARE]], [[4.999, "rstack", SOFTWARE]], [[0.3, "rstack", 0x02], [3.0, "rstack", SOFTWARE]], [],
+                           [[2.0, "error", 0x51], [4.0, "rstack", SOFTWARE]]):
+                    out.append({"i": 2, "j": 3, "op": op, "events": ev, "prior": {"answer": ans, "gap": gap}})
     for i in range(8):
         for q in (1, 2, 3):
             for how in ("same-chunk", "between", "before-request"):
